@@ -359,7 +359,7 @@ _RELT.update({"D02": ["C01", "C02", "C10", "C12", "C13", "C18"], "D04": ["C03", 
 # D08.p3 (the owned map rebuilt on Mapped::generate(|i| f(read(src[i]))): index-addressed reads driven by the crate's own generate, which the step protocol
 # does not know as a range driver) and B01.p3 (N elements stored as N/2 pairs `[T; 2]`: another layout induction than the two-children node C01.S is stated
 # on - and C01.L found that it does change which astronomically large types have a layout) are reported - DESIGN 8.5
-_SKIPT = {("V14", 3), ("V18", 3), ("X14", 3), ("B05", 3), ("B19", 3), ("B12", 3), ("D08", 3), ("B01", 3)}   # B12.p3: the same Range<usize> cursor merge as B05.p3, by another author
+_SKIPT = {("V14", 3), ("V18", 3), ("X14", 3), ("B05", 3), ("B19", 3), ("B12", 3), ("B01", 3)}   # D08.p3 is supported since generate counts as a range driver   # B12.p3: the same Range<usize> cursor merge as B05.p3, by another author
 for _g, _props in _RELT.items():
     for _i in (1, 2, 3):
         if (_g, _i) in _SKIPT:
@@ -633,3 +633,7 @@ benign("c01-new-pair-view-of-self-in-bounds", ["C01", "C02", "C12"], _api("    /
 mutant("c01-new-pair-view-of-self-off-by-one", ["C01"], _api("    /// Elements `i` and `i + 1` as a native pair, `None` if `i + 1` is out of range.\n    pub fn pair_at(&self, i: usize) -> Option<&[T; 2]> {\n        if N::USIZE < 2 || i > N::USIZE - 1 {\n            return None;\n        }\n        Some(unsafe { &*(self.as_ptr().add(i) as *const [T; 2]) })\n    }\n\n"), "C01.V")
 benign("c01-new-tail-slice-of-self-in-bounds", ["C01", "C02", "C12"], _api("    /// All elements but the first.\n    pub fn tail(&self) -> &[T] {\n        if N::USIZE == 0 {\n            return &[];\n        }\n        unsafe { slice::from_raw_parts(self.as_ptr().add(1), N::USIZE - 1) }\n    }\n\n"))
 mutant("c01-new-tail-slice-of-self-one-too-long", ["C01"], _api("    /// All elements but the first.\n    pub fn tail(&self) -> &[T] {\n        if N::USIZE == 0 {\n            return &[];\n        }\n        unsafe { slice::from_raw_parts(self.as_ptr().add(1), N::USIZE) }\n    }\n\n"), "C01.V")
+
+# tenth corpus: wrong versions of the owned map rebuilt on generate (D08.p3)
+mutant_on_patch("m-D08p3-map-reads-the-mirrored-element", "D08.p3", ["C08"], [("src/lib.rs", "let value = ptr::read(src.get_unchecked(i));", "let value = ptr::read(src.get_unchecked(N::USIZE - 1 - i));")], "C08.M")
+mutant_on_patch("m-D08p3-map-counts-after-the-call", "D08.p3", ["C04"], [("src/lib.rs", "                let value = ptr::read(src.get_unchecked(i));\n\n                *position += 1;\n\n                f(value)", "                let value = ptr::read(src.get_unchecked(i));\n                let r = f(value);\n                *position += 1;\n                r")], "C04")
